@@ -20,7 +20,10 @@ func (e *Exec) evalCall(st *State, call *ast.CallExpr) []Term {
 	}
 	top := len(e.frames) == 1 && e.spec == 0 && e.calledObj != nil && name != ""
 	if top {
-		e.pendingAssert = name
+		if e.assertFor == nil {
+			e.assertFor = map[*ast.CallExpr]bool{}
+		}
+		e.assertFor[call] = true
 	}
 	res := e.evalCallInner(st, call)
 	if top && !st.Dead() {
@@ -39,10 +42,10 @@ func (e *Exec) evalCall(st *State, call *ast.CallExpr) []Term {
 // callSiteAsserts emits the obligations `call <name> assert[...]` for a call whose receiver and arguments
 // have just been evaluated.
 func (e *Exec) callSiteAsserts(st *State, call *ast.CallExpr, name string, recv Term, args []Term) {
-	if len(e.frames) != 1 || e.spec > 0 || e.Fn.C == nil || e.pendingAssert != name {
+	if len(e.frames) != 1 || e.spec > 0 || e.Fn.C == nil || !e.assertFor[call] {
 		return
 	}
-	e.pendingAssert = ""
+	delete(e.assertFor, call)
 	e.fr().callSeen["@"+name]++
 	ord := e.fr().callSeen["@"+name]
 	for _, ca := range e.Fn.C.Calls {
@@ -54,6 +57,11 @@ func (e *Exec) callSiteAsserts(st *State, call *ast.CallExpr, name string, recv 
 		e.callArgs, e.callRecv = args, recv
 		t := e.evalSpec(st, ca.Clause)
 		e.callArgs, e.callRecv = savedA, savedR
+		if ca.Assume {
+			e.Assumed["explicit assumption ["+ca.Clause.Label+"] at call "+name+": "+ca.Clause.Src] = true
+			e.assume(st, t)
+			continue
+		}
 		e.Ctx.AddObligation(e.Fn.FullName(), "assert", fmt.Sprintf("%s/assert/%s", e.fnName(), ca.Clause.Label), st.PC, t, e.pos(call.Pos()))
 	}
 }
